@@ -44,7 +44,7 @@ func (m *MonC04) StepDone(f *Fleet, actor Actor) {
 		m.seenLoads = map[*Node]int{}
 		m.afterLoad = map[*Node]*NodeState{}
 	}
-	if actor.Kind == "ls" && actor.Task != nil && actor.Task.Role == "syncloop" && actor.Task.point == "loadonce:after-txn" {
+	if actor.Kind == "ls" && actor.Task != nil && actor.Task.Role == "syncloop" && actor.Task.point == "lmdb:end-write" && actor.Task.relPoint == "sync:before-load" {
 		// the state as the merge transaction left it (the application may
 		// commit again before the merge is reported)
 		m.afterLoad[actor.Node] = f.state[actor.Node]
